@@ -479,7 +479,7 @@ func genC11Case(r *Rng) c11Input {
 				continue
 			}
 			f := pickFeeder(v)
-			if sh := shadow[v]; sh.has && r.Chance(9, 10) {
+			if sh := shadow[v]; sh.has && (uint64(sh.h)/vp < uint64(h)/vp || r.Chance(1, 8)) && r.Chance(9, 10) {
 				op := c11Op{Kind: "vote", H: h, Val: v, Feeder: f, Salt: sh.salt, Rates: sh.rates}
 				switch r.Pick(30, 2, 2, 1, 1) {
 				case 1:
@@ -573,11 +573,17 @@ func genC11Case(r *Rng) c11Input {
 				switch r.Pick(6, 2, 2) {
 				case 0:
 					op.VP = vps[r.Intn(len(vps))]
+					if op.Sudo {
+						vp = op.VP
+					}
 				case 1:
 					op.VP = 0
 					op.WL = [][]string{{"ubtc:uusd"}, {"ubtc:uusd", "ueth:uusd", "ufoo:ubar"}, {"uatom:uusd", "ubtc:uusd", "ueth:uusd", "uusdc:uusd", "uusdt:uusd"}}[r.Intn(3)]
 				case 2:
 					op.VP = uint64(r.Range(1, 9))
+					if op.Sudo {
+						vp = op.VP
+					}
 					op.WL = []string{"ubtc:uusd", "ueth:uusd", "uatom:uusd", "ufoo:ubar"}
 				}
 				in.Ops = append(in.Ops, op)
